@@ -170,6 +170,18 @@ def _colour_events(seed, thorough, tid0):
     b[1] = np.nextafter(b[1], 3.0)
     ev.append({"tid": tid, "op": "flag", "clause": "PsnrInfIffEqual", "what": "one-ulp difference",
                "ok": bool(Q.psnr(b, a) != float("inf") and Q.relative_error(b, a) > 0)})
+    # nearly equal arrays (a few entries changed by 1 ulp .. 1e-9 relative): still unequal, so finite PSNR / non-zero error
+    for n_ in range(12 if thorough else 6):
+        tid += 1
+        a = rng.random((8, 8, 3)) if n_ % 2 else rng.random(64) * 10.0 ** rng.integers(-3, 4)
+        b = a.copy()
+        idx = tuple(int(rng.integers(0, s_)) for s_ in a.shape)
+        rel = (0.0, 1e-15, 1e-12, 1e-9)[n_ % 4]
+        b[idx] = np.nextafter(b[idx], np.inf) if rel == 0.0 else b[idx] * (1.0 + rel) + (rel if b[idx] == 0 else 0.0)
+        neq = not np.array_equal(a, b)
+        ev.append({"tid": tid, "op": "flag", "clause": "PsnrInfIffEqual", "what": "one entry changed by %s" % (rel or "1 ulp"),
+                   "ok": bool((Q.psnr(b, a) != float("inf")) == neq and (Q.relative_error(b, a) > 0) == neq
+                              and (Q.psnr(a, b) != float("inf")) == neq)})
     # noise injection hits the requested SNR in expectation (statistical clause)
     for target in (10.0, 25.0, 40.0):
         tid += 1
